@@ -19,6 +19,7 @@
 #include "st_format.h"
 #include "early_battery.h"
 #include <climits>
+#include <filesystem>
 
 using vf::Ctx;
 using vf::strf;
@@ -1200,6 +1201,26 @@ static void build(vf::Plan &plan, const vf::Opts &o)
                    unsigned ty = (unsigned)vf::take(i, N_TL_TYPES), ci = (unsigned)vf::take(i, 4), n = TL_LENS[vf::take(i, N_TL_LENS)];
                    return strf("%s, %u characters of width class %u", TL_TYPE[ty], n, ci);
                });
+
+    plan.stage("std::filesystem::path arguments (generic and non-generic texts) x 5 fields: rendered as the path's own text, like the same text given as a string", 7 * 5,
+               [](uint64_t i, Ctx &c) {
+                   static const char *const PT[7] = {"a//b", "./a/../b/", "//srv/share\\x", "d\xC3\xA9/f", "", "dir///sub//file.txt", "trailing/"};
+                   static const char *const PF[5] = {"{}", "{>14}|", "{<14}|", "{.3}", "[{_*16}]"};
+                   const char *t = PT[i % 7], *f = PF[i / 7];
+                   std::string got, want;
+                   vf::Outcome oc = vf::guard([&] {
+                       ST::string a = ST::format(f, std::filesystem::path(std::u8string((const char8_t *)t)));
+                       ST::string b = ST::format(f, std::string(t));
+                       got.assign(a.c_str(), a.size());
+                       want.assign(b.c_str(), b.size());
+                   });
+                   VF_COUNT("validated");
+                   if (!oc.ok()) c.fail(strf("path-argument:unexpected-%s", out_slug(oc).c_str()), strf("format %s of path %s -> %s", f, vf::vis(t).c_str(), oc.str().c_str()));
+                   else if (got != want)
+                       c.fail(strf("path-argument:%s", diff_kind(want, got)), strf("format %s of path %s gives %s, of the same text as a string %s", f, vf::vis(t).c_str(), vf::vis(got).c_str(), vf::vis(want).c_str()));
+                   c.nontrivial();
+               },
+               [](uint64_t i) { return strf("path text #%u, field #%u", (unsigned)(i % 7), (unsigned)(i / 7)); });
 
     plan.stage("a _stfmt formatter object called three times with different arguments (5 format strings)", 5,
                [](uint64_t i, Ctx &c) { run_formatter_reuse(c, i); }, [](uint64_t i) { return strf("format string #%u", (unsigned)i); });
